@@ -148,6 +148,26 @@ def real_cases(ctx):
         yield "ansi", "placeholder", "ph", rng.choice(["SELECT :a  FROM t WHERE b = :b", "select :a,:b from t", ":a:b", "SELECT ':a' , :x"]), {"a": "col", "b": "'v'"}
 
 
+def iterseg_lines(ctx, tf, toks, lines, meta, case):
+    """Model/IterSeg.lean vs `_iter_segments`: every whitespace run of the rendered text that spans more than one literal
+    slice (and only literal slices) is split by the model and compared with the real whitespace tokens at those positions."""
+    import re as _re
+    nz = [s_ for s_ in tf.sliced_file if s_.templated_slice.stop > s_.templated_slice.start]
+    for m in _re.finditer(r"[^\S\r\n]+", tf.templated_str):
+        e0, e1 = m.start(), m.end()
+        over = [s_ for s_ in nz if s_.templated_slice.start < e1 and s_.templated_slice.stop > e0]
+        if len(over) < 2 or any(s_.slice_type != "literal" for s_ in over):
+            continue
+        # the loop walks on from the slice containing e0
+        flat = [x for s_ in over for x in (s_.templated_slice.start, s_.templated_slice.stop, s_.source_slice.start)]
+        real = [(t.pos_marker.templated_slice.start, t.pos_marker.templated_slice.stop, t.pos_marker.source_slice.start, t.pos_marker.source_slice.stop, len(t.raw))
+                for t in toks if not t.is_meta and t.is_type("whitespace") and e0 <= t.pos_marker.templated_slice.start and t.pos_marker.templated_slice.stop <= e1
+                and not (t.pos_marker.templated_slice.start == t.pos_marker.templated_slice.stop == e1 and not t.raw and False)]
+        lines.append("iterseg.split %d %d %s" % (e0, e1, enc_nats(flat)))
+        meta.append(("iterseg", dict(case, element=[e0, e1], slices=[(s_.templated_slice.start, s_.templated_slice.stop, s_.source_slice.start) for s_ in over]), real, None))
+        ctx.bump("split_whitespace_elements")
+
+
 def real_lex(ctx):
     from sqlfluff.core import Linter, FluffConfig
     from sqlfluff.core.parser.lexer import StringLexer
@@ -202,6 +222,8 @@ def real_lex(ctx):
                 ctx.count((d, templ, txt, vi), nontrivial=len(real_toks) > 5,
                           sample={"dialect": d, "templater": templ, "file": name, "tokens": len(real_toks)} if len(ctx.samples) < 6 else None)
                 ctx.bump("lexed_" + templ)
+                if templ == "jinja" and vi == 0:
+                    iterseg_lines(ctx, tf, real_toks, lines, meta, {"dialect": d, "file": name, "text": txt[:800], "context": tctx})
             ctx.contract("SubdivideLossless", not sub_bad, {"dialect": d, "file": name, "bad": sub_bad[:2]})
     finally:
         StringLexer._subdivide = orig_sub
@@ -217,7 +239,7 @@ def run(ctx, prove=True):
                 "a 8-char alphabet; real: shuffled dialect fixtures, character-injected mutants, random junk, generated jinja templates, python and "
                 "placeholder sources, every variant; non-trivial = >5 tokens / subdividing matcher; distinct by (config, text)")
     if prove:
-        ctx.prove(["SqlfluffVerif.Props.C01"], ["Props/C01.lean"])
+        ctx.prove(["SqlfluffVerif.Props.C01", "SqlfluffVerif.Props.C01b"], ["Props/C01.lean", "Props/C01b.lean"])
     ctx.assumptions += ["regex engines are parameters (MatcherOK: a match is a non-empty prefix; spans are in range) - sampled on every real match",
                         "NoStartAfterMid for trim searchers (true of maximal-run patterns) - sampled via SubdivideLossless"]
     ctx.partial += ["source-position clauses (in-bounds, monotone, coverage) are evaluated by Lean on real output; _iter_segments is not yet proved"]
@@ -235,6 +257,12 @@ def run(ctx, prove=True):
                 model = (out, None)
             if model != (real[0], real[1]):
                 ctx.corr_fail("PyLexer.lex loop", {"matchers": specs, "last_resort": lr, "text": s, "real": real, "model": model})
+        elif m[0] == "iterseg":
+            _, case, real, _x = m
+            model = [] if out.strip() == "~" else [tuple(int(x) for x in p.split(",")) for p in out.strip().split(";")]
+            ctx.count(("iterseg", json.dumps(case, sort_keys=True, default=str)), nontrivial=len(model) > 2)
+            if model != real:
+                ctx.corr_fail("_iter_segments split whitespace: model vs real", dict(case, model=model, real=real))
         else:
             _, case, concat_ok, toks = m
             v = out.split(" ")
